@@ -36,12 +36,6 @@ ArithLabels == {"add", "sub", "mul", "div", "idiv", "rem", "pow", "band", "bor",
 CmpLabels == {"lt", "le", "gt", "ge"}
 UnIns(l) == CASE l = "neg" -> "Opposite" [] l = "abs" -> "AbsoluteValue" [] l = "bnot" -> "BitwiseNot"
 
-\* ---- the host
-RECURSIVE FindIn(_, _, _)
-FindIn(tab, key, i) == IF i > Len(tab) THEN None ELSE IF tab[i].key = key THEN Some(tab[i].value) ELSE FindIn(tab, key, i + 1)
-HostResolve(H, name) == FindIn(H.resolve, name, 1)
-HostApply(H, n) == FindIn(H.apply, n, 1)
-
 \* an identifier: looked up in the input value first (pairs and lists have associations); only then the host, once
 IdValue(name, cur, H, log) ==
   LET found == IF cur.t \in {"pair", "list"} THEN Lookup(cur, MkSym(name)) ELSE None
